@@ -350,7 +350,7 @@ PROPS["C14"] = {
 PROPS["C19"] = {
     "level": "model_checking",
     "technique": "explicit-state exploration in four parts: (a) every try/throw/rethrow/catch/finally program up to a size and nesting bound executed with the real macros from three initial contexts and compared event by event with a reference interpreter of structured-exception semantics; (b) every interleaving of two per-context programs over two context objects; (c) every history of parameter selections up to a length bound, judged by a differential oracle (observation battery vs a fresh process with only the last selections); (d) every step-level interleaving of 2-3 real threads under a baton scheduler in the thread-enabled build, plus free-running ThreadSanitizer runs of the same bodies",
-    "level_text": "(a) all programs over {mark, throw, rethrow, get_code, TRY/CATCH_ANY|CATCH(var)[/FINALLY]} with <= 6 (quick) / <= 7 (thorough) statements, each from a pristine context, after a throw outside any block, and inside an enclosing user block; judged: nearest handler runs, nothing after a throw, every finaliser exactly once, handler chain restored, sticky code semantics, CATCH(var) value. (b) three pairs of per-context programs (init, selections, batteries, throw, get_code, clean+init): ALL interleavings (924 + 792 + 462); the observation sequence of each context must equal its solo run. (c) alphabet of 11 actions (six prime-curve selections incl. twist selection for the two pairing curves, two binary curves, a foreign dense prime, fp_param_set of another prime, heavy use): ALL histories of length <= 3 (1 463; thorough <= 4: 16 104) on a re-initialised context; afterwards a 25-item observation battery (flags, constants, field/tower ops, generator/variable/fixed/simultaneous multiplications, endomorphism, encodings, hashing, F_p^2 curve ops, pairing, GT, validity, binary curve, sticky code) must hash item by item like a process forked right after core_init that made only the last selections. (d) MULTI=PTHREAD build: program sets for 2 x 5 and 3 x 3 steps (thorough also 2 x 6): ALL 252 + 252 + 1 680 step-level interleavings under a baton scheduler, the observations of each thread equal to its solo run, replay determinism asserted; the same bodies free-running with and without ThreadSanitizer (library and harness instrumented): any data-race report fails the run. Structural side (mt-syms): EVERY data object of the multi-threaded archive in a writable non-thread-local section is enumerated (objdump -t) and must be on a justified list of five (the thread-initialiser hook and its argument, the volatile memset pointer, two never-written SHA initial-value tables); the two context pointers must be thread-local.",
+    "level_text": "(a) all programs over {mark, throw, rethrow, get_code, TRY/CATCH_ANY|CATCH(var)[/FINALLY]} with <= 6 (quick) / <= 7 (thorough) statements, each from a pristine context, after a throw outside any block, and inside an enclosing user block; judged: nearest handler runs, nothing after a throw, every finaliser exactly once, handler chain restored, sticky code semantics, CATCH(var) value. (b) four pairs of per-context programs (init, selections, batteries, throw, get_code, clean+init, incl. throw followed by re-initialisation): ALL interleavings (924 + 792 + 462 + 924); the observation sequence of each context must equal its solo run, and a context that was just (re-)initialised must read as success. (c) alphabet of 11 actions (six prime-curve selections incl. twist selection for the two pairing curves, two binary curves, a foreign dense prime, fp_param_set of another prime, heavy use): ALL histories of length <= 3 (1 463; thorough <= 4: 16 104) on a re-initialised context; afterwards a 25-item observation battery (flags, constants, field/tower ops, generator/variable/fixed/simultaneous multiplications, endomorphism, encodings, hashing, F_p^2 curve ops, pairing, GT, validity, binary curve, sticky code) must hash item by item like a process forked right after core_init that made only the last selections. (d) MULTI=PTHREAD build: program sets for 2 x 5 and 3 x 3 steps (thorough also 2 x 6): ALL 252 + 252 + 1 680 step-level interleavings under a baton scheduler, the observations of each thread equal to its solo run, replay determinism asserted; the same bodies free-running with and without ThreadSanitizer (library and harness instrumented): any data-race report fails the run. Structural side (mt-syms): EVERY data object of the multi-threaded archive in a writable non-thread-local section is enumerated (objdump -t) and must be on a justified list of five (the thread-initialiser hook and its argument, the volatile memset pointer, two never-written SHA initial-value tables); the two context pointers must be thread-local.",
     "level_note": "Trusted: the reference interpreter of (a) (relic's documented order: finaliser before handler); the battery as the notion of what the library computes. Derived data that no computation of the selected sets reads (sparse form of a previous sparse prime after a dense one, the curve-family parameter after leaving a pairing curve) is deliberately not observed. (d) explores scheduling at API-step granularity; instruction-level interleavings inside a step are covered only by the ThreadSanitizer runs (sampling of schedules, exhaustive in nothing) -- stated as a limit.",
     "rule": "cases are (program text, initial context) resp. (selection history) resp. (schedule); enumerated by a generator over the grammar / odometers; distinct by 64-bit hash; states = programs x contexts; transitions = model statements executed (each compared with the implementation trace).",
     "assumptions": ["structured-exception semantics as stated in the property with finaliser-before-handler order", "CHECK and VERBS on (shipped)"],
